@@ -484,7 +484,7 @@ func C03(c *hx.Ctx) {
 			// "whichever encoder wrote it" - and however the bytes arrive: the window sizes rotate
 			// through plain in-memory sources and short-reading ones (half buffers, 1-3 bytes, one
 			// byte per call, last bytes together with io.EOF); large streams skip the one-byte source
-			mode := []string{"", "half", "small", "dataeof", "one"}[(i+di)%5]
+			mode := []string{"", "half", "small", "dataeof", "one", "gaps"}[(i+di)%6]
 			if mode == "one" && len(s.data) > 200000 {
 				mode = "half"
 			}
